@@ -183,6 +183,12 @@ def check_point(s, x, T, order=None):
         if lp is None or lm is None:
             return 'excluded:no-convergence-fd', viol, None
         dmu[:, j] = (lp[0] - lm[0]) / (2 * h)
+        # the three local equilibria must lie on one branch: a phase with internal (ordering) degrees of freedom can converge to another
+        # set of site fractions at a neighbouring composition, and a finite difference across two branches is no derivative.  For a
+        # smooth potential one-sided differences agree to O(h mu'') ~ 3e-3 relative (h <= x/300)
+        one_sided = np.abs((lp[0] - mu0) / h - (mu0 - lm[0]) / h)
+        if np.max(one_sided) > 5e-2 * max(float(np.max(np.abs(dmu[:, j]))), 1e-300):
+            return 'excluded:branch-switch-in-finite-difference', viol, None
     iref = alpha.index(ref)
     isol = [alpha.index(e) for e in alpha_sol]
     Hfd = dmu[isol, :] - dmu[iref, :][None, :]
